@@ -338,7 +338,62 @@ fn run_linux(lsb: &str, status: &str, cpuinfo: &str) -> String {
     format!("L {} pid={} mc={} line={}", fields, pid, mc, text_line)
 }
 
+/// Q <callee regs name=val,..> <rules of the INIT line>;<rules of delta line 1>;..   (rule = name=const | name=! for an
+/// expression that fails): the general registers of the CFI caller frame (frames[1]) of an arm64 thread, by name
+const Q_OBSERVE: [&str; 15] = ["x19", "x20", "x21", "x22", "x23", "x24", "x25", "x26", "x27", "x28", "x29", "fp", "x30", "lr", "x0"];
+fn run_cfi_q(callee: &str, lines: &str) -> String {
+    let mut text = String::from("MODULE Linux arm64 000000000000000000000000000000000 q\nFUNC 0 10000 0 f\n");
+    for (i, l) in lines.split(';').enumerate() {
+        let rules: Vec<String> = l
+            .split(',')
+            .filter(|e| *e != "-")
+            .map(|e| {
+                let (k, v) = e.split_once('=').expect("name=val");
+                format!("{}: {}", k, if v == "!" { "1 0 /".to_string() } else { v.to_string() })
+            })
+            .collect();
+        if i == 0 {
+            text.push_str(&format!("STACK CFI INIT 0 10000 .cfa: sp 16 + .ra: .cfa 8 - ^ {}\n", rules.join(" ")));
+        } else {
+            text.push_str(&format!("STACK CFI {:x} {}\n", 4 * i, rules.join(" ")));
+        }
+    }
+    let mut spec = Spec { cpu: "arm64".into(), os: "linux".into(), ..Default::default() };
+    spec.syms.push(text.into_bytes());
+    spec.modules.push(ModSpec { base: 0x400000, size: 0x10000, name: "/lib/q.so".into(), sym: Some(0), debug: None });
+    let mut regs: Vec<(String, u64)> = vec![("pc".into(), 0x400800), ("sp".into(), 0x10000), ("lr".into(), 0x400080)];
+    for e in callee.split(',') {
+        let (k, v) = e.split_once('=').expect("reg=val");
+        regs.push((k.to_string(), num(v)));
+    }
+    let mut stack = vec![0u8; 64];
+    stack[0..8].copy_from_slice(&0x20000u64.to_le_bytes());
+    stack[8..16].copy_from_slice(&0x400100u64.to_le_bytes());
+    spec.threads.push(ThreadSpec { id: 1, stack_base: 0x10000, stack, regs: Some(regs) });
+    let dump = Minidump::read(build_dump(&spec)).expect("read");
+    let syms = symbol_table(&spec, &dump);
+    let provider = Symbolizer::new(BytesSupplier { modules: syms });
+    let state = exec_a(minidump_processor::process_minidump_with_options(&dump, &provider, ProcessorOptions::stable_basic())).expect("process");
+    let frames = &state.threads[0].frames;
+    if frames.len() < 2 || frames[1].trust != minidump_unwind::FrameTrust::CallFrameInfo {
+        return format!("Q nocfi frames={}", frames.len());
+    }
+    let ctx = &frames[1].context;
+    let out: Vec<String> = Q_OBSERVE
+        .iter()
+        .map(|n| match &ctx.raw {
+            MinidumpRawContext::Arm64(c) => c.get_register(n, &ctx.valid).map(|v| v.to_string()).unwrap_or_else(|| "-".into()),
+            _ => "?".into(),
+        })
+        .collect();
+    format!("Q {}", out.join(","))
+}
+
 fn run(line: &str) -> String {
+    if let Some(rest) = line.strip_prefix("Q ") {
+        let mut it = rest.split_ascii_whitespace();
+        return run_cfi_q(it.next().expect("callee"), it.next().expect("rules"));
+    }
     if let Some(h) = line.strip_prefix("R ") {
         return run_limits_names(h.trim());
     }
